@@ -3,7 +3,7 @@ from __future__ import annotations
 
 from typing import Any, Dict, List
 
-from sim.gen_worker import gen_worker_script
+from sim.gen_worker import gen_worker_script, tier_knobs
 from ._wcommon import (ASSUMPTIONS, COMPONENTS_REAL, COMPONENTS_STUB, Hist, Violation, default_nontrivial,  # noqa: F401
                        simplifications, simulate)
 
@@ -41,7 +41,7 @@ KNOBS = {
 
 
 def gen(rs: int, tier: str, index: int) -> dict:
-    return gen_worker_script(rs, KNOBS)
+    return gen_worker_script(rs, tier_knobs(KNOBS, tier, index))
 
 
 def oracle(script: dict, run: Any) -> List[Violation]:
